@@ -578,17 +578,14 @@ func vC08Batch(t *testing.T, rg *vrng, idx int) *vC08Case {
 			CircuitMap: bob.htlcSwitch.circuits, r: rec,
 		}
 	}
+	// The id maps are complete before any link goroutine exists.
+	rec.chans[lnwire.NewChanIDFromOutPoint(channels.aliceToBob.ChannelPoint())] = 1
+	rec.chans[lnwire.NewChanIDFromOutPoint(channels.bobToCarol.ChannelPoint())] = 2
+	rec.scids[channels.bobToAlice.ShortChanID()] = 1
+	rec.scids[channels.bobToCarol.ShortChanID()] = 2
 	n := newThreeHopNetwork(t, channels.aliceToBob, channels.bobToAlice,
 		channels.bobToCarol, channels.carolToBob, testStartingHeight,
 		circuitsOpt)
-	rec.chans[n.aliceChannelLink.ChanID()] = 1
-	rec.chans[n.carolChannelLink.ChanID()] = 2
-	rec.scids[n.firstBobChannelLink.ShortChanID()] = 1
-	rec.scids[n.secondBobChannelLink.ShortChanID()] = 2
-	n.firstBobChannelLink.cfg.Peer = &vC08Peer{Peer: n.firstBobChannelLink.cfg.Peer, r: rec}
-	n.secondBobChannelLink.cfg.Peer = &vC08Peer{Peer: n.secondBobChannelLink.cfg.Peer, r: rec}
-	vC08WrapForward(rec, n.firstBobChannelLink, 1)
-	vC08WrapForward(rec, n.secondBobChannelLink, 2)
 	n.aliceServer.intersect(rec.wire("a", nil))
 	n.bobServer.intersect(rec.wire("b", nil))
 	n.carolServer.intersect(rec.wire("c", nil))
@@ -596,6 +593,20 @@ func vC08Batch(t *testing.T, rg *vrng, idx int) *vC08Case {
 		t.Fatalf("start: %v", err)
 	}
 	defer n.stop()
+	if rec.chans[n.aliceChannelLink.ChanID()] != 1 || rec.chans[n.carolChannelLink.ChanID()] != 2 ||
+		rec.scids[n.firstBobChannelLink.ShortChanID()] != 1 ||
+		rec.scids[n.secondBobChannelLink.ShortChanID()] != 2 {
+
+		t.Fatalf("channel id maps inconsistent")
+	}
+	// AddLink already started the link goroutines (they read cfg.Peer while
+	// re-establishing), so Bob's links are wrapped only now: n.start() waited
+	// until every link is eligible, i.e. idle in its main loop, and every
+	// later read of these fields is ordered after a message we cause.
+	n.firstBobChannelLink.cfg.Peer = &vC08Peer{Peer: n.firstBobChannelLink.cfg.Peer, r: rec}
+	n.secondBobChannelLink.cfg.Peer = &vC08Peer{Peer: n.secondBobChannelLink.cfg.Peer, r: rec}
+	vC08WrapForward(rec, n.firstBobChannelLink, 1)
+	vC08WrapForward(rec, n.secondBobChannelLink, 2)
 
 	c.Init = vC08Ends(n, rec)
 
